@@ -262,6 +262,31 @@ static void gen_c02_ecdsa(const std::string& tier, std::vector<Work>& W) {
     bool th = tier != "quick";
     std::vector<gen::Key> keys = {gen::make_key(1), gen::make_key(2), gen::make_key(3)};
     auto T = ecdsa_templates();
+    // (0) lengths across the one-byte compact-size boundary inside the digests: script codes of every length 240..270 (whole script, and the
+    //     part after a code separator), and transactions with 252 / 253 / 254 inputs or outputs, signing input 0 / 252 / the last
+    for (SigVer sv : {SigVer::BASE, SigVer::WITNESS_V0}) {
+        W.push_back({[=](Violations& V, Stats2& S) {
+            Ctx c = make_ctx(2, 2, 1, 123456789, sv);
+            auto one = [](const std::vector<bytes>& s) { return std::vector<bytes>{s[0]}; };
+            for (int n = 198; n <= 236; n++) for (int form = 0; form < 2; form++) {
+                Tmpl t = form == 0 ? Tmpl{"padded CHECKSIG", [n](auto& k, auto&) { return C({P(bytes(size_t(n), 0x5a)), O(0x75), P(k[0].pub), O(0xac)}); }, one, {{0, 0}}}
+                                   : Tmpl{"padded CODESEP padded CHECKSIG", [n](auto& k, auto&) { return C({P(bytes(40, 0x33)), O(0x75), O(0xab), P(bytes(size_t(n), 0x5a)), O(0x75), P(k[0].pub), O(0xac)}); }, one, {{0, 0}}};
+                for (uint8_t ht : {uint8_t(1), uint8_t(0x83)}) for (uint32_t fl : {0u, F_STANDARD}) {
+                    Inst I = instantiate(t, c, keys, {ht});
+                    compare_explicit(c, I.script, I.stack, fl, t.name + " script code of " + std::to_string(n + 38) + " bytes hashtype=" + std::to_string(ht), "script-code-length", V, S);
+                }
+            }
+        }, "script code lengths across 253"});
+        for (std::array<int, 3> sh : {std::array<int, 3>{252, 2, 251}, {253, 2, 0}, {253, 2, 252}, {254, 2, 253}, {2, 252, 1}, {2, 253, 1}, {2, 254, 0}, {253, 253, 100}, {300, 300, 260}}) {
+            Ctx c = make_ctx(sh[0], sh[1], sh[2], 123456789, sv);
+            W.push_back({[=](Violations& V, Stats2& S) {
+                for (uint8_t ht : {uint8_t(1), uint8_t(2), uint8_t(3), uint8_t(0x81), uint8_t(0x82), uint8_t(0x83)}) for (uint32_t fl : {0u, F_STANDARD}) {
+                    Inst I = instantiate(T[0], c, keys, {ht});
+                    compare_explicit(c, I.script, I.stack, fl, "CHECKSIG in a wide transaction hashtype=" + std::to_string(ht), "wide-transaction", V, S);
+                }
+            }, "wide transaction " + c.label});
+        }
+    }
     // (1) all 256 hash types x transaction shapes x input index x {BASE, WITNESS_V0} on CHECKSIG (and on 2-of-3 multisig for the main shape), flags NONE and STANDARD
     std::vector<std::array<int, 2>> shapes = th ? std::vector<std::array<int, 2>>{{1, 1}, {1, 2}, {1, 3}, {2, 1}, {2, 2}, {2, 3}, {3, 1}, {3, 2}, {3, 3}} : std::vector<std::array<int, 2>>{{1, 1}, {2, 1}, {2, 3}, {3, 2}};
     for (auto sh : shapes) for (int k = 0; k < sh[0]; k++) for (SigVer sv : {SigVer::BASE, SigVer::WITNESS_V0}) {
@@ -453,6 +478,20 @@ static void gen_c02_schnorr(const std::string& tier, std::vector<Work>& W) {
         S2.sessions++; S2.steps += st.steps; if (o.valid) S2.sig_accept++; else S2.sig_reject++;
         S2.outcomes[o.refused ? "refused" : o.valid ? "OK" : "invalid"]++;
     };
+    // (0) lengths across the one-byte compact-size boundary inside the digests: every leaf length 242..262 (the TapLeaf hash serialises the
+    //     script with its length) and annexes of 252..254 / 300 / 65536 bytes (sha_annex serialises the annex with its length), key and script path
+    W.push_back({[=](Violations& V, Stats2& S2) {
+        for (int pad = 205; pad <= 225; pad++) for (uint8_t ht : {uint8_t(0), uint8_t(0x83)}) {
+            gen::Shape sh; sh.nin = 1; sh.nout = 2; sh.pos = 0; sh.fund_vout = 1; sh.amount = 4200000; sh.pad = pad;
+            gen::Spend S = gen::make_spend("p2tr-script", sh, ht, 1, false);
+            run_case(S, "p2tr-script leaf of " + std::to_string(S.leaf_script.size()) + " bytes hashtype=" + std::to_string(ht), "schnorr-leaf-length", F_STANDARD, V, S2);
+        }
+        for (int al : {252, 253, 254, 300, 65535, 65536}) for (const char* type : {"p2tr-key", "p2tr-script"}) for (uint8_t ht : {uint8_t(0), uint8_t(0x81)}) {
+            gen::Shape sh; sh.nin = 1; sh.nout = 2; sh.pos = 0; sh.fund_vout = 1; sh.amount = 4200000; sh.annex_len = al;
+            gen::Spend S = gen::make_spend(type, sh, ht, 1, true);
+            run_case(S, std::string(type) + " annex of " + std::to_string(al) + " bytes hashtype=" + std::to_string(ht), std::string("schnorr-annex-length:") + type, F_STANDARD, V, S2);
+        }
+    }, "schnorr leaf / annex lengths across 253"});
     // (1) all 256 hash types (65-byte signatures) + the 64-byte default, key path and script path, with/without annex, nout 1..3
     for (int nout : {1, 2, 3}) for (bool annex : {false, true}) for (const char* type : {"p2tr-key", "p2tr-script"}) {
         if (!th && nout == 3 && annex) continue;
@@ -676,6 +715,36 @@ static void gen_c11(const std::string& tier, std::vector<Work>& W) {
             }
         }, "empty listed signature"});
     }
+    // wide multisig and long pair lists: 1-of-n with the one listed key at EVERY script position for n up to the 20-key limit (a per-operation
+    // cache or mask of mocked keys narrower than 20 entries loses the far ones), n-of-n with every pair listed (lists of up to 20 pairs, in
+    // script order and reversed), and the same scripts with one pair missing from the list (that signature must then fail)
+    for (SigVer sv : {SigVer::BASE, SigVer::WITNESS_V0}) for (int n : {3, 8, 9, 15, 16, 17, 18, 19, 20}) {
+        if (!th && sv == SigVer::WITNESS_V0 && n != 17 && n != 20) continue;
+        for (int part = 0; part < 5; part++)
+        W.push_back({[=](Violations& V, Stats2& S) {
+            std::vector<gen::Key> ks; for (int i = 0; i < n; i++) ks.push_back(gen::make_key(1 + i));
+            Ctx c = make_ctx(2, 2, 1, 1000, sv);
+            auto msig = [&](int m) { std::vector<bytes> parts; parts.push_back(m <= 16 ? O(uint8_t(0x50 + m)) : P(bytes{uint8_t(m)})); for (auto& k : ks) parts.push_back(P(k.pub)); parts.push_back(n <= 16 ? O(uint8_t(0x50 + n)) : P(bytes{uint8_t(n)})); parts.push_back(O(0xae)); bytes r; for (auto& x : parts) r.insert(r.end(), x.begin(), x.end()); return r; };
+            uint32_t relaxed = F_STANDARD & ~(F_STRICTENC | F_DERSIG | F_LOW_S | F_NULLFAIL);
+            bytes sg = unhex("aa01");
+            for (uint32_t fl : {0u, relaxed}) {
+                for (int j = 0; j < n; j++) {
+                    if (j % 4 != part) continue;
+                    std::vector<std::pair<bytes, bytes>> L = {{sg, ks[j].pub}};
+                    compare_explicit(c, msig(1), {{}, sg}, fl, "1-of-" + std::to_string(n) + " multisig, the listed key at script position " + std::to_string(j), "mock:wide-multisig:listed-key", V, S, L, true, false, "c11");
+                    if (j + 1 < n) { std::vector<std::pair<bytes, bytes>> L2 = {{sg, ks[j].pub}, {unhex("bb02bb"), ks[j + 1].pub}};
+                        compare_explicit(c, msig(2), {{}, sg, unhex("bb02bb")}, fl, "2-of-" + std::to_string(n) + " multisig, the listed keys at script positions " + std::to_string(j) + "," + std::to_string(j + 1), "mock:wide-multisig:two-listed-keys", V, S, L2, true, false, "c11");
+                        compare_explicit(c, msig(2), {{}, unhex("bb02bb"), sg}, fl, "2-of-" + std::to_string(n) + " multisig, listed signatures in the wrong order, keys at " + std::to_string(j) + "," + std::to_string(j + 1), "mock:wide-multisig:wrong-order", V, S, L2, true, false, "c11"); }
+                }
+                if (part != 4) continue;
+                std::vector<std::pair<bytes, bytes>> all; std::vector<bytes> st{{}};
+                for (int i = 0; i < n; i++) { bytes sgi{0xa0, uint8_t(i), 0x01}; all.push_back({sgi, ks[i].pub}); st.push_back(sgi); }
+                compare_explicit(c, msig(n), st, fl, std::to_string(n) + "-of-" + std::to_string(n) + " multisig, every pair listed (" + std::to_string(n) + " pairs)", "mock:wide-multisig:all-listed", V, S, all, true, false, "c11");
+                { auto rev = all; std::reverse(rev.begin(), rev.end()); compare_explicit(c, msig(n), st, fl, std::to_string(n) + "-of-" + std::to_string(n) + " multisig, every pair listed, list reversed", "mock:wide-multisig:all-listed", V, S, rev, true, false, "c11"); }
+                for (int miss : {0, n / 2, n - 1}) { auto L = all; L.erase(L.begin() + miss); compare_explicit(c, msig(n), st, fl, std::to_string(n) + "-of-" + std::to_string(n) + " multisig, the pair of key " + std::to_string(miss) + " missing from the list", "mock:wide-multisig:one-unlisted", V, S, L, true, false, "c11"); }
+            }
+        }, "wide multisig n=" + std::to_string(n)});
+    }
     // short values whose concatenations coincide (aa||bbcc == aabb||cc): every list of one or two pairs over 3 signatures x 3 keys of different
     // lengths, and against each list every (signature, key) of the alphabet in CHECKSIG and in a 1-of-1 multisig, without encoding rules
     // (flags 0: an unlisted pair is checked for real and fails, nothing is refused on its encoding): accepted exactly when that very pair is listed
@@ -841,7 +910,7 @@ int main(int argc, char** argv) {
     Stats2 S;
     std::string tmp = make_tmpdir();
     parallel_for(W.size(), default_workers(), tmp, mode,
-        [&](size_t i, FILE* o) { Violations v; Stats2 s; W[i].run(v, s); s.dump(o); v.dump(o); },
+        [&](size_t i, FILE* o) { Violations v; Stats2 s; double t1 = now_s(); W[i].run(v, s); if (getenv("VERIF_TIMING")) { FILE* tf = fopen(getenv("VERIF_TIMING"), "a"); if (tf) { fprintf(tf, "%.2f\t%s\n", now_s() - t1, W[i].label.c_str()); fclose(tf); } } s.dump(o); v.dump(o); },
         [&](size_t i, int st, const std::string& nt) { V.add(mode + ":crash:" + crash_desc(st), "worker died (" + crash_desc(st) + ") in work item " + W[i].label, J::raw(nt.empty() ? "{}" : nt)); },
         [&](const std::string& l) { if (l.empty()) return; if (l[0] == 'V') V.merge_line(l); else S.merge_line(l); });
     rm_rf(tmp);
